@@ -13,7 +13,7 @@ from ..model_ac import ModelAC
 ID = "C06"
 LEVEL = "exploration"
 SHARDS = {"quick": 8, "thorough": 16}
-RULE = ("case = (token 64B, key 32B, each passed as bytes or hex string, device nonce, prior state fresh / previously "
+RULE = ("(the reply may arrive in several TCP segments; a sweep uses nonces for which the genuine reply contains the start marker 83 70, cut at every position) case = (token 64B, key 32B, each passed as bytes or hex string, device nonce, prior state fresh / previously "
         "authenticated with other good credentials / an earlier attempt timed out and its late replies arrived afterwards / the same credentials authenticated more than 12 h ago on this connection, reply mutation). Mutations: genuine; every single-bit flip of the 64-byte "
         "reply body (512, exhaustive); body length 0/32/63/65/96/128; 1..15 extra bytes with the header's pad nibble set to that count; every packet type nibble 0..15 in place of 1; error "
         "packet; reply built under a different key (random or 1 bit different); hash of a different nonce; silence. Oracle: "
@@ -83,7 +83,11 @@ def check_case(case: dict):
         mark = len(dev.log)
         kind = mut[0]
         if kind == "genuine":
-            pass
+            if case.get("cuts"):
+                # the genuine reply reaches the client in several TCP segments (all of them well within the 2 s read timeout:
+                # a reply slower than that is answered by a retransmitted handshake, the "late" prior state above)
+                cuts = list(case["cuts"])
+                dev.default_hs_action = ("genuine", {"cuts": cuts, "gap": min(case.get("gap", 0.01), 1.4 / len(cuts))})
         elif kind == "flip":
             bit = mut[1]
             def m(body, bit=bit):
@@ -169,6 +173,10 @@ def check_case(case: dict):
             return ("genuine/rejected", f"genuine reply rejected: {out.get('auth_msg') or out.get('auth_exc')!r}")
         if out["after_creds"] != (token.hex(), key.hex()):
             return ("genuine/creds", f"Device.token/key {out['after_creds']} != supplied")
+        hs_reqs = [e for e in out["during"] if e[0] == "hs_req"]
+        if len(hs_reqs) != 1:
+            # the (prompt) genuine reply to the first request was not taken: the client asked again
+            return ("genuine/retransmitted", f"{len(hs_reqs)} handshake requests were needed although the first one was answered promptly with the genuine reply (cuts {case.get('cuts')})")
         if not out["online"]:
             return ("genuine/refresh", f"refresh after authentication failed; device saw {out['data_events']}")
         bad = [e for e in out["data_events"] if e[0] != "data" or e[2] != out["latest_gen"]]
@@ -214,13 +222,38 @@ def _nt(case) -> bool:
 
 
 def _run_one(ctx, case):
-    ctx.case(hash((case["token"], case["key"], repr(case["mut"]), case.get("prior"), case.get("token_form"), case.get("key_form"), case.get("nonce"))),
+    ctx.case(hash((case["token"], case["key"], repr(case["mut"]), case.get("prior"), case.get("token_form"), case.get("key_form"), case.get("nonce"), tuple(case.get("cuts", [])), case.get("gap"))),
              _nt(case), cls=f"{case['mut'][0]}/{case.get('prior', 'fresh')}")
     ctx.sample(f"{case['mut'][0]}/{case.get('prior', 'fresh')}", case)
     return check_case(case)
 
 
+def marker_nonce(key: bytes, want_pos=None):
+    """A nonce seed (hex) for which the genuine 64-byte reply body contains the packet start marker 83 70, and where."""
+    for i in range(200000):
+        seed = i.to_bytes(3, "big")
+        nonce = hashlib.sha256(seed + bytes([1])).digest()
+        body = rc.v3_handshake_reply_body(key, nonce)
+        pos = body.find(b"\x83\x70")
+        if pos >= 0 and (want_pos is None or want_pos(pos)):
+            return seed.hex(), pos
+    raise RuntimeError("no nonce found")
+
+
 def run(ctx) -> None:
+    # genuine replies that contain the start marker inside (in the encrypted nonce or in its hash), cut at every position
+    g = 0
+    for s_ in range(2 if ctx.quick else 6):
+        tok, key = _creds(50 + s_)
+        seed, pos = marker_nonce(key, (lambda p: p < 32) if s_ % 2 == 0 else (lambda p: p >= 32))
+        for cut in range(1, 8 + 64):
+            for two in (None, 8 + pos, 8 + pos + 2, 8 + 63):
+                g += 1
+                if ctx.mine(g) and (two is None or two > cut):
+                    case = {"token": tok.hex(), "key": key.hex(), "nonce": seed, "token_form": "bytes", "key_form": "bytes", "prior": "fresh", "mut": ["genuine"],
+                            "cuts": [cut] + ([two] if two else []), "gap": [0.0, 0.01, 0.3][g % 3]}
+                    ctx.check(case, lambda c: _run_one(ctx, c))
+    ctx.sweep("genuine replies containing the start marker x segmentations", g, True)
     n = 0
     sets = 2 if ctx.quick else 8
     for s in range(sets):
@@ -254,5 +287,6 @@ def run(ctx) -> None:
     cases = st.fixed_dictionaries({
         "token": hexb(gens.tokens64()), "key": hexb(gens.keys32()), "nonce": hexb(st.binary(min_size=1, max_size=8)),
         "token_form": st.sampled_from(["bytes", "hex"]), "key_form": st.sampled_from(["bytes", "hex"]),
-        "prior": st.sampled_from(["fresh", "fresh", "authed", "late", "expired"]), "mut": mut, "id": gens.device_ids(48)})
+        "prior": st.sampled_from(["fresh", "fresh", "authed", "late", "expired"]), "mut": mut, "id": gens.device_ids(48)},
+        optional={"cuts": st.lists(st.integers(1, 71), min_size=1, max_size=4, unique=True).map(sorted), "gap": st.sampled_from([0.0, 0.01, 0.5])})
     ctx.hyp("generated", cases, lambda c: _run_one(ctx, c), ctx.n(2400, 128000))
